@@ -64,6 +64,8 @@ CORPUS = [
     ('FC20a OverflowError: DAT day too large for a C int', _DAT_HDR + b'1 2147483648Dec06 11-50-17 0\n'),
     ('FC20a OverflowError: DAT year too large for a C int', _DAT_HDR + b'1165665017 09Dec99999999999999999999 11-50-17 0\n'),
     ('F15 OverflowError: DAT UTIM out of range', _DAT_HDR + b'99999999999999999999 09Dec06 11-50-17 0\n'),
+    ('ZeroDivisionError: mutated RCD-like input that the LIS test indexes to a format specification with zero samples '
+     '(found by the thorough tier, seed 5)', bytes.fromhex('0400000040000000ffffffff000000002d26642e3a78303a0c4a4b782350535c2861503c3757770d333a7e412d730b39673a64705f313b3e7c4b2e7369474763505834735d5d0b457c625b4b21393f6d677b2a28465f404b4f704a4e334e466b6e7467d96e632575752a454d647d54590922680a597d572b4668676a6065465b3a5e2a5e2223336761695a4671774059697444395336442026772c4e536c5754737c42472a353426226b3c726c696b3553426b202037592e0970672a4b5a0b3f545338092e6d263c796664342e626f763962765b6523633d215c764676363e3b5a670b27790b66554b567e426e660d5138526c3d6a295f44390d7d632a7c2b0d5a4162227d27423d6b6236426120745a284f7e246a5409465b72523d20325f434577604b75286a3239784e2d0d0b2c203f7d097430685e386a3665775f506c4a653a5852517c290a0c4e565f6577682f6b2d350a2e260a3965674438667752274a6067665b79457e42385122276c7e5e704c240b775b3b23414a48625e2e2273273921572b594f697b7031404c4954532f09490b496d5d7968224237212a5a59')),
     ('F17 ValueError: EBCDIC-printable block with cards Cxx',
      ''.join('Cxx' + ' ' * 77 for _ in range(40)).encode('cp500')),
 ]
